@@ -18,6 +18,7 @@ class Check(object):
     RULE = ''
     MAX_REPORT = 8
     SHRINK_BUDGET = 200
+    SHRINK = True
 
     def gen_cases(self, rng, tier):
         raise NotImplementedError
@@ -73,7 +74,11 @@ class Check(object):
             c['fs'] = [shrink.detuple(x) for x in c['fs']]
         return c
 
+    def normalize(self, c):
+        return c
+
     def evaluate(self, model, cs, interactive=False):
+        cs = [self.normalize(c) for c in cs]
         lines, spans = [], []
         for c in cs:
             ls = self.model_lines(c)
@@ -118,6 +123,7 @@ class Check(object):
             cs = [self.load_case(r['c'])] if 'c' in r else []
         else:
             cs = self.corpus() + self.gen_cases(rng, tier)
+        cs = [self.normalize(c) for c in cs]
         verdicts = self.evaluate(model, cs) if (ok or replay) and os.path.exists(os.path.join(VERIF, 'build', 'model_driver')) else []
         stats, hist, distinct, failing = {}, {}, set(), []
         for c, (v, d) in zip(cs, verdicts):
@@ -132,24 +138,44 @@ class Check(object):
         known = load_known(self.PID)
         reported = set()
         nshrunk = 0
-        for (c, v, d) in failing:
+        # visit failing cases round-robin over their (unshrunk) signatures so that a
+        # frequent known finding cannot hide a rarer violation behind the shrink budget
+        groups = {}
+        for item in failing:
+            c, v, d = item
+            try:
+                g = json.dumps(self.signature(c, d), sort_keys=True, default=str) if v == 'violation' else v
+            except Exception:
+                g = v
+            groups.setdefault(g, []).append(item)
+        order = []
+        while any(groups.values()):
+            for g in list(groups):
+                if groups[g]:
+                    order.append(groups[g].pop(0))
+        for (c, v, d) in order:
             if v != 'violation':
                 if len(rep.violations) < self.MAX_REPORT:
                     rep.violation({'kind': 'broken-correspondence', 'what': v, 'c': c, 'detail': d,
                                    'theorem_or_correspondence': 'model vs specification layer / model driver (' + str(v) + ')'},
                                   suffix='no-failing-input-found')
                 continue
-            if nshrunk >= 40:
+            if nshrunk >= 60:
                 break
             nshrunk += 1
-            c2, d2 = shrink.shrink_case(c, lambda x: self.still_fails(model, x), budget=self.SHRINK_BUDGET) if 'f' in c else (c, d)
+            c2, d2 = shrink.shrink_case(c, lambda x: self.still_fails(model, x), budget=self.SHRINK_BUDGET) if (self.SHRINK and 'f' in c) else (c, d)
             if d2 is None:
                 d2 = d
+            c2 = self.normalize(c2)
             k = self.key(c2)
             if k in reported:
                 continue
             reported.add(k)
             sig = self.signature(c2, d2)
+            sk = json.dumps(sig, sort_keys=True, default=str)
+            if sk in reported:
+                continue
+            reported.add(sk)
             hit = None
             for kf in known:
                 if shrink.sig_match(kf.get('signature', {}), sig):
